@@ -3,6 +3,7 @@ mod common;
 mod sodium;
 mod c12;
 mod c09;
+mod c18;
 mod c07;
 mod aead;
 mod stream;
@@ -33,6 +34,7 @@ fn main() {
     match prop {
         "C12" => c12::run(&mut out, tier, seed),
         "C09" => c09::run(&mut out, tier, seed),
+        "C18" => c18::run(&mut out, tier, seed),
         "C07" => c07::run_c07(&mut out, tier, seed),
         "C08" => c07::run_c08(&mut out, tier, seed),
         "C01" => aead::run_c01(&mut out, tier, seed),
